@@ -4,6 +4,10 @@ import (
 	"fmt"
 	"math"
 	"testing"
+
+	"github.com/platinummonkey/go-concurrency-limits/core"
+	"github.com/platinummonkey/go-concurrency-limits/limit"
+	"github.com/platinummonkey/go-concurrency-limits/limit/functions"
 )
 
 type pre struct {
@@ -329,6 +333,36 @@ func TestC06(t *testing.T) {
 			}
 		}
 	}
+	// AIMD's drop rule at products limit x ratio that land next to an integer in binary64 (100 x 0.57 = 56.99999999999999):
+	// the rule truncates the binary64 product, nothing is added before the truncation
+	{
+		r := root.Fork()
+		pairs := 0
+		for _, ratio := range []float64{0.57, 0.29, 0.58, 0.35, 0.7, 0.07, 0.9, 0.99, 0.1, 0.55, 0.15, 0.85, 0.6} {
+			for lim := int64(2); lim <= 1200; lim++ {
+				x := float64(lim) * ratio
+				if math.Abs(x-math.Round(x)) > 1e-7 && !r.Bool(2) {
+					continue
+				}
+				l, c, _ := newLimitCase(tr, rep, "C06", r, 0, 0, func(cfg *LimitCfg) { cfg.P = []int64{lim, 1, FBits(ratio)} })
+				if l == nil {
+					continue
+				}
+				l.Now += 1000
+				p, o := c.sample(l, tr, l.Now, 1000, lim, true)
+				tr.End()
+				pairs++
+				want := int64(math.Max(1, math.Min(float64(lim-1), math.Floor(x))))
+				if !o.Panicked && o.Est != want {
+					c.violate("aimd:drop-rule", fmt.Sprintf("drop at limit %d ratio %v gave %d, rule says %d (binary64 product %v)", p.Est, ratio, o.Est, want, x))
+				}
+				if o.Est > p.Est {
+					c.violate("aimd:drop-raises", fmt.Sprintf("a drop sample raised EstimatedLimit() %d -> %d", p.Est, o.Est))
+				}
+			}
+		}
+		rep.Distinct("aimd-near-integer-products", fmt.Sprint(pairs))
+	}
 	// replay of known finding F5: Gradient constructed below its queue allowance
 	{
 		l, _ := NewLUT(LimitCfg{Kind: 2, P: []int64{2, 1, 1000, 1000, FBits(0.2), FBits(2.0)}})
@@ -602,7 +636,12 @@ func TestC16(t *testing.T) {
 		for _, wr := range []int{0, 1, 2, 3} {
 			for ci := 0; ci < nCases; ci++ {
 				r := root.Fork()
-				l, c, st := newLimitCase(tr, rep, "C16", r, kind, wr, nil)
+				var fix func(*LimitCfg)
+				if kind == 2 && r.Bool(15) {
+					// built below the queue allowance, probing at once: the probe moves the estimate up (to the allowance) - a change like any other
+					fix = func(cfg *LimitCfg) { cfg.P[0], cfg.P[3] = r.Pick(1, 2, 3), r.Pick(1, 2, 3) }
+				}
+				l, c, st := newLimitCase(tr, rep, "C16", r, kind, wr, fix)
 				if l == nil {
 					continue
 				}
@@ -785,6 +824,156 @@ func TestC09Windowed(t *testing.T) {
 				h = h[:5]
 			}
 			rep.Sample(map[string]interface{}{"limit": "windowed(fixed)", "cfg": l.Cfg.Ints(), "first_ops": h})
+		}
+	}
+}
+
+// C04 with a configured constant queue allowance (0 included) and configured minimum 0 or 1: the floor of 1 holds whatever the allowance;
+// long runs of drops and of doubled latency drive the estimate down to it.
+func TestC04Allowance(t *testing.T) {
+	rep := NewReport("C04Q")
+	defer rep.Write(t)
+	root := NewRng(Seed())
+	for _, kind := range []int{2, 3} {
+		for ci := 0; ci < Scale(60, 800); ci++ {
+			r := root.Fork()
+			q := int(r.Pick(0, 0, 1, 2, 4, 10))
+			minL := int(r.Pick(0, 0, 1, 2, 3, 5))
+			maxL := int(r.Pick(20, 50, 200, 1000))
+			initial := int(r.Pick(int64(max(minL, 1)), 5, 10, 20))
+			if initial < minL {
+				initial = minL
+			}
+			sm := []float64{0.2, 0.5, 1.0, 0.3, 0.05, 0.9}[r.Intn(6)]
+			cfgMin := minL
+			if kind == 3 && minL <= 0 {
+				minL = 4 // Gradient2 replaces a non-positive minimum by 4: a valid configuration starts at or above it
+				initial = max(initial, 4)
+			}
+			var lim core.Limit
+			floor := max(minL, 1)
+			name := limitKindNames[kind]
+			if kind == 2 {
+				lim = limit.NewGradientLimitWithRegistry("g", initial, cfgMin, maxL, sm, functions.FixedQueueSizeFunc(q), 2.0, -1, nil, nil)
+			} else {
+				g2, err := limit.NewGradient2Limit("g2", initial, maxL, cfgMin, functions.FixedQueueSizeFunc(q), sm, int(r.Pick(10, 100, 600)), nil, nil)
+				if err != nil {
+					rep.Count("constructor-error")
+					continue
+				}
+				lim = g2
+			}
+			var hist [][]int64
+			now, base := int64(0), r.Pick(1000, 50_000, 1_000_000)
+			feed := func(rtt, inf int64, drop bool) bool {
+				now += 1000
+				hist = append(hist, []int64{now, rtt, inf, B(drop)})
+				var pv interface{}
+				func() {
+					defer func() { pv = recover() }()
+					lim.OnSample(now, rtt, int(inf), drop)
+				}()
+				rep.Evaluations++
+				rp := map[string]interface{}{"component": "limit-constant-allowance", "kind": kind, "initial": initial, "min": minL, "max": maxL, "queue": q, "smoothing": sm, "samples": hist}
+				if pv != nil {
+					rep.Violate(name+":panic", fmt.Sprintf("OnSample panicked: %v", pv), rp)
+					return false
+				}
+				e := lim.EstimatedLimit()
+				if e < floor {
+					rep.Violate(name+":below-floor", fmt.Sprintf("EstimatedLimit()=%d below the floor %d (configured minimum %d, constant queue allowance %d)", e, floor, minL, q), rp)
+					return false
+				}
+				if e > max(maxL, initial) {
+					rep.Violate(name+":above-ceiling", fmt.Sprintf("EstimatedLimit()=%d above the ceiling %d", e, max(maxL, initial)), rp)
+					return false
+				}
+				return true
+			}
+			ok := true
+			for ph := 0; ph < 6 && ok; ph++ {
+				n := 20 + r.Intn(80)
+				mode := r.Intn(4)
+				for i := 0; i < n && ok; i++ {
+					e := int64(lim.EstimatedLimit())
+					switch mode {
+					case 0: // drops
+						ok = feed(base, e+1, true)
+					case 1: // latency doubling every few samples, saturated
+						ok = feed(base*(1<<uint(min(i/3, 20))), e+1, false)
+					case 2: // healthy saturated
+						ok = feed(base+r.Range(0, base/10), e+1, false)
+					default: // mixed, app-limited included
+						ok = feed(base*r.Pick(1, 1, 2, 5)+r.Range(0, 50), r.Pick(0, e/2, e, e+1), r.Bool(20))
+					}
+				}
+			}
+			rep.Distinct("allowance-run", fmt.Sprint(kind, q, minL, maxL, initial, sm, lim.EstimatedLimit()))
+		}
+	}
+}
+
+// the traced wrapper hands every sample to its delegate unchanged (zero RTTs, idle samples and drops included), reports the delegate's
+// estimate, and registers listeners with the delegate
+type recLimit struct {
+	est   int
+	calls [][]int64
+	ls    []core.LimitChangeListener
+}
+
+func (l *recLimit) EstimatedLimit() int                       { return l.est }
+func (l *recLimit) NotifyOnChange(c core.LimitChangeListener) { l.ls = append(l.ls, c) }
+func (l *recLimit) OnSample(start, rtt int64, inflight int, drop bool) {
+	l.calls = append(l.calls, []int64{start, rtt, int64(inflight), B(drop)})
+	l.est++
+	for _, c := range l.ls {
+		c(l.est)
+	}
+}
+
+func TestC16Traced(t *testing.T) {
+	rep := NewReport("C16traced")
+	defer rep.Write(t)
+	root := NewRng(Seed())
+	for ci := 0; ci < Scale(60, 600); ci++ {
+		r := root.Fork()
+		rec := &recLimit{est: int(r.Pick(1, 5, 20))}
+		var tl core.Limit = limit.NewTracedLimit(rec, limit.NoopLimitLogger{})
+		if r.Bool(30) {
+			tl = limit.NewTracedLimit(tl, limit.NoopLimitLogger{}) // traced twice
+		}
+		var got []int
+		var hist [][]int64
+		fail := func(sig, d string) {
+			rep.Violate("traced:"+sig, d, map[string]interface{}{"component": "traced-wrapper", "samples": hist})
+		}
+		for i := 0; i < 40; i++ {
+			if i == 0 || r.Bool(5) {
+				n := len(rec.ls)
+				tl.NotifyOnChange(func(v int) { got = append(got, v) })
+				if len(rec.ls) != n+1 {
+					fail("listener-not-registered", "NotifyOnChange on the wrapper did not register the listener with the delegate")
+				}
+			}
+			args := []int64{r.Pick(0, 1, int64(i)*1000), r.Pick(0, 0, 1, 999, 1_000_000, 1<<40, 1<<62), r.Pick(0, 0, 1, 7, 1<<31-1), B(r.Bool(25))}
+			hist = append(hist, args)
+			n, g := len(rec.calls), len(got)
+			tl.OnSample(args[0], args[1], int(args[2]), args[3] != 0)
+			rep.Evaluations++
+			rep.Distinct("traced-sample", fmt.Sprint(args[1] == 0, args[2] == 0, args[3]))
+			if len(rec.calls) != n+1 {
+				fail("sample-not-forwarded", fmt.Sprintf("sample (start,rtt,inflight,drop)=%v reached the delegate %d times", args, len(rec.calls)-n))
+				break
+			}
+			if fmt.Sprint(rec.calls[n]) != fmt.Sprint(args) {
+				fail("sample-altered", fmt.Sprintf("sample %v reached the delegate as %v", args, rec.calls[n]))
+			}
+			if tl.EstimatedLimit() != rec.est {
+				fail("wrapper-estimate", fmt.Sprintf("wrapper reports %d, its delegate %d", tl.EstimatedLimit(), rec.est))
+			}
+			if len(got) == g || got[len(got)-1] != rec.est {
+				fail("missed-notification", "the delegate's estimate changed but the listener registered through the wrapper was not called with it")
+			}
 		}
 	}
 }
